@@ -33,6 +33,7 @@ def main():
         viol = [l for l in r.stdout.split("\n") if l.startswith("VIOLATION")]
         rows.append((sid, "ALARM" if r.returncode != 0 else "quiet", viol[0][:120] if viol else ""))
         print(sid, rows[-1][1], rows[-1][2], flush=True)
+    sh([sys.executable, os.path.join(HERE, "tools", "verif.py"), "setup"], cwd=HERE)      # regenerate the facts from the clean tree again
     json.dump(rows, open("/var/tmp/igverif/seed_matrix.json", "w"), indent=1)
     missed = [r for r in rows if (r[1] != "ALARM") != (r[0] == "C19_1") and r[1] != "patch-does-not-apply"]
     print("missed/unexpected:", missed)
